@@ -95,7 +95,7 @@ impl Lift for PackedEncoding {
             let mut last_position = 0;
             for PackedSpan { offset, size, .. } in &spans {
                 spans_are_valid = spans_are_valid && last_position <= *offset;
-                last_position = offset + size;
+                last_position = offset.saturating_add(*size);
             }
 
             // In order to prevent issues with inferring types for unused portions of a
